@@ -17,6 +17,8 @@
 
 #pragma once
 
+#include <sys/types.h>
+
 #include <atomic>
 #include <set>
 #include <string>
@@ -77,6 +79,9 @@ class FsDropInService : public DropInServiceAdaptor {
   // Files of the watched directory that were handed to the engine. Accessed
   // with event_loop_mutex_ held.
   std::set<std::string> loaded_files_;
+  // Identity of the directory the watch was placed on
+  dev_t watched_dev_{0};
+  ino_t watched_ino_{0};
 };
 
 } // namespace Oomd
